@@ -48,7 +48,8 @@ def handle (op : String) (c i : Json) : Except String (Json × String) := do
     let emit := emitPos f s
     let back := parsePos f s.little s.size emit
     let tp := typePair fname s.signed s.isFloat s.size
-    let carriesType := carries fname "type"
+    let lvl0 := match (c.getObjVal? "lvl").toOption with | some (Json.str l) => l | _ => "full"
+    let carriesType := carries fname "type" && lvl0 != "layout"
     let m := J.obj [("emit", if x then J.ofInt emit else .null),
                     ("back", match back with
                       | some b => J.ofList [J.ofInt b, J.ofNat s.size, Json.bool s.little]
@@ -62,7 +63,8 @@ def handle (op : String) (c i : Json) : Except String (Json × String) := do
         "fail: after the round trip the signal does not occupy the same payload bits (start/width/byte order)"
       else "ok"
     let it ← J.key i "type"
-    let s2 := if !carriesType || J.isNull it then "ok" else
+    let lvl := match (c.getObjVal? "lvl").toOption with | some (Json.str l) => l | _ => "full"
+    let s2 := if lvl == "layout" || !carriesType || J.isNull it then "ok" else
       match it with
       | .arr #[sgj, .bool fl] =>
         if fl != s.isFloat then "fail: float type not preserved by the round trip"
@@ -78,6 +80,17 @@ def handle (op : String) (c i : Json) : Except String (Json × String) := do
     let got ← J.key i "got"
     if J.isNull got then
       pure (J.obj [], "fail: the frame (identifier and format) is missing after the round trip")
+    else if (match (c.getObjVal? "lvl").toOption with | some (Json.str l) => l == "layout" | _ => false) then
+      -- C06: the frame is there and so is every signal by name (their layout is the business of the 'sig' cases)
+      let osigs ← J.arr (← J.key orig "signals")
+      let gsigs ← J.arr (← J.key got "signals")
+      let framed ← J.str (← J.key orig "name")
+      let missing := osigs.filter fun o =>
+        let n := (o.getObjVal? "name").toOption
+        let isMux := (o.getObjVal? "mux").toOption == some (Json.str "Multiplexor")
+        !(gsigs.any fun g => (g.getObjVal? "name").toOption == n ||
+            (fname == "sym" && isMux && (g.getObjVal? "name").toOption == some (Json.str (framed ++ "_MUX"))))
+      pure (J.obj [], if missing.isEmpty then "ok" else "fail: a signal of the frame is missing after the round trip")
     else
       let sizeOk ← do
         pure (!carries fname "size" || (← J.key orig "size") == (← J.key got "size"))
